@@ -1,6 +1,37 @@
-/* C08 harness: LZ4 block decompression on arbitrary bytes (contract in contracts/lz4.ovl) */
+/* C08 harness: LZ4 block decompression on arbitrary bytes (contract in contracts/lz4.ovl).
+ * Also carries the C10 decoder-direction lemmas: the fields carquet extracts from a token / offset
+ * are the ones the format document defines (specs/lz4_spec.h). */
 #include "cqv.h"
 #include <stdlib.h>
+#include <string.h>
+#include "lz4_spec.h"
+
+/* memcpy model for this job (stubs/mem_stubs.c is NOT linked): both ranges must be accessible;
+ * afterwards the WHOLE destination object holds arbitrary bytes.  This over-approximates the copy
+ * (nothing proved here depends on buffer contents) and avoids __CPROVER_havoc_slice with a symbolic
+ * length, which needs > 11 GB in this function (literal copy followed by match reads of dst). */
+void *memcpy(void *dst, const void *src, size_t n) {
+  __CPROVER_precondition(__CPROVER_r_ok(src, n), "memcpy src readable");
+  __CPROVER_precondition(__CPROVER_w_ok(dst, n), "memcpy dst writable");
+  if (n != 0) __CPROVER_havoc_object(dst);
+  return dst;
+}
+
+/* only referenced by the compressor in the same translation unit (not part of this job) */
+void *memset(void *dst, int c, size_t n) {
+  __CPROVER_precondition(__CPROVER_w_ok(dst, n), "memset dst writable");
+  if (n != 0) __CPROVER_havoc_object(dst);
+  return dst;
+}
+
+#define CQV_LZ4_DEC_TOKEN \
+  __CPROVER_assert(lit_len == lz4_spec_token_lit(token), "lz4d: literal length field is the spec's high nibble");
+#define CQV_LZ4_DEC_OFFSET \
+  __CPROVER_assert(offset == (size_t)ip[0] + 256u * (size_t)ip[1], "lz4d: offset is the spec's 16-bit little-endian value");
+#define CQV_LZ4_DEC_MATCH \
+  __CPROVER_assert(match_len == lz4_spec_token_match(token) + LZ4_SPEC_MINMATCH, "lz4d: match length field is the spec's low nibble + minmatch"); \
+  __CPROVER_assert(((token & 0x0F) == 15) == (lz4_spec_token_match(token) == 15u), "lz4d: match length extension iff the spec's field is 15");
+
 #include "src/compression/lz4.c"
 
 void h_lz4_decompress(void) {
@@ -11,5 +42,4 @@ void h_lz4_decompress(void) {
   carquet_status_t st = carquet_lz4_decompress(src, src_size, dst, dst_capacity, dst_size);
   CQV_CANARY("lz4_decompress returns");
   if (st == CARQUET_OK) CQV_CANARY("lz4_decompress returns OK");
-  if (st == CARQUET_OK && *dst_size == dst_capacity && dst_capacity > 0) CQV_CANARY("lz4_decompress fills the buffer exactly");
 }
